@@ -14,6 +14,32 @@ def oracle(case):
             return 'exit status 0 although an error was reported: %s' % (iv['errors'] or iv['other_errors'])[:2]
         if case['archived'] is None:
             return 'exit status 0 but nothing was published'
+        # nothing silently left out (the cases an oracle can decide without glob semantics: items without a filter;
+        # paths touched by an injected fault, and what lies beneath them, are left to the model comparison)
+        arch = {p_ for _, p_ in case['archived']}
+        faulted = [f.split('@', 1)[1].rsplit('=', 1)[0] for f in case['faults'] if '@' in f]
+        def missing(node, path, top):
+            if any(path == f or path.startswith(f + '/') or f.startswith(path + '/') for f in faulted):
+                return None
+            k = node.get('kind')
+            if k == 'special':
+                return ('the configured item %s is of an unsupported type, was skipped, and the exit status is 0' % path) if top else None
+            if k in ('file', 'dir', 'symlink') and path not in arch:
+                return '%s %s exists, is not filtered out, is not in the published backup, and the exit status is 0' % (k, path)
+            if k == 'dir':
+                for c in node.get('children', []):
+                    if c.get('raw') or not c.get('path_valid', True) or not c.get('utf8', True):
+                        continue
+                    r = missing(c['node'], path + '/' + c['name'], False)
+                    if r:
+                        return r
+            return None
+        for m in case['items']:
+            if m['resolved'] is None or m.get('no_faults') or m.get('filter') or 'node' not in m:
+                continue
+            r = missing(m['node'], '/' + '/'.join(m['resolved']), True)
+            if r:
+                return r
     if case['archived'] is not None and case['temp_left']:
         return 'temporary directory left behind after a publishing run'
     if case['archived'] is None and case['temp_left']:
